@@ -11,6 +11,11 @@ for i in ids:
     d = os.path.join(ROOT, "seeded", i)
     prop = i.split("-")[0]
     info = INFO.get(i, {})
+    if info.get("superseded"):
+        meta = {"id": i, "property": prop, "breaks": info.get("breaks", ""), "needs_to_manifest": info.get("needs", ""), "superseded": info["superseded"], "history": info.get("history", ""), "detected": None}
+        json.dump(meta, open(os.path.join(d, "meta.json"), "w"), indent=1)
+        print(i, "superseded:", info["superseded"][:120], flush=True)
+        continue
     checks = [prop] + info.get("also", [])
     out = subprocess.run([os.path.join(ROOT, "tools", "try_seeded.sh"), os.path.join(d, "patch.diff")] + checks, stdout=subprocess.PIPE, stderr=subprocess.STDOUT, text=True).stdout
     det = []
